@@ -62,6 +62,8 @@ PROP = dict(
                            "reply_context.defer": 15000, "reply_context_detached.reply": 5000,
                            "reply_context_detached.reply(NULL)": 8000, "reply:fragmented-message": 8000,
                            "request:without-id": 5000,
+                           "conn:reply-attempted-on-full-datagram-queue": 3000, "conn:reply-rejected-by-full-queue": 2000,
+                           "conn:retry-after-full-queue": 3000, "monitor:full-queue-reply-accounted": 3000,
                            "conn:congested-burst": 3000, "conn:replies-queued-while-congested": 6000, "peer:filler-received": 10000}),
               dict(name="c12_sreply", src=["c12_sreply.c"], libs=["mptio", "mptcore"], batch=512,
                    floors={"mpt_stream_reply": 100000, "reply:accepted": 50000, "reply:refused": 40000,
@@ -107,6 +109,8 @@ PROP = dict(
             "2 s of CPU time or 60 s of wall time inside the call count as missing progress",
             "decoding of COBS/R, ZPE and ZPE/R frames in c12_sreply uses the independent reference decoder harness/c01_refcodec.h; exactly-full states are built from the frame length the library itself produces for the same reply in a large stream",
             "stream connection cases use a 2 kB SO_SNDBUF on non-blocking sockets; in congested bursts the peer does not read until the connection has answered",
+            "datagram connection cases: in a third of the peer bursts the peer's receive queue is first filled with one-way datagrams of the connection (until mpt_connection_push fails); "
+            "a reply on the full queue may be rejected, the retry after the peer has drained must be accepted",
             "a reply whose COBS size plus 4 bytes fits the free output space must be accepted by mpt_stream_reply; finished bytes of the output queue are final",
             "a request armed on the context when its reference is released with the transport attached must get one default (NULL message) send, also while deferred handles are outstanding",
         ],
